@@ -627,6 +627,52 @@ theorem C12_collect_iff (pl₁ pl₂ : Bool) (base p₁ p₂ : Str) :
     simp [collectPath, collectNormalises, h₁, h₂, Generated.collectPlainRelNorm, Generated.collectPlainAbsNorm,
       Generated.collectNodeRelNorm, Generated.collectNodeAbsNorm]
 
+/-- **paths, normal form.** Whatever spelling of the `paths` argument is used, the project path pytask works with
+(and builds task module paths — hence task signatures — from) is in normal form. -/
+theorem C12_parse_paths_normal (cwd p : Str) : normpath (parsePath cwd p) = parsePath cwd p := by
+  simp [parsePath, Generated.parsePathsResolves, normpath_idem]
+
+/-- **paths, spellings.** `p/./q`, `p//q` and `p/x/../q` (a detour through any sibling directory `x`) name the project /
+task module under the same path as `p/q`, so the tasks keep their signature across builds that spell `paths` differently
+(symbolic links: trusted to `Path.resolve`, exercised by the check). -/
+theorem C12_parse_paths_spellings (cwd p q x : Str) (hb : cwd.getLast? ≠ some '/')
+    (hp : HasNonSlash p) (hrel : isAbs p = false) (hx : Normal x) :
+    parsePath cwd (p ++ '/' :: '.' :: '/' :: q) = parsePath cwd (p ++ '/' :: q) ∧
+    parsePath cwd (p ++ '/' :: '/' :: q) = parsePath cwd (p ++ '/' :: q) ∧
+    parsePath cwd (p ++ '/' :: (x ++ '/' :: '.' :: '.' :: '/' :: q)) = parsePath cwd (p ++ '/' :: q) := by
+  have e : ∀ r, parsePath cwd r = collectPath true cwd r := by
+    intro r
+    cases h : isAbs r <;>
+      simp [parsePath, collectPath, collectNormalises, h, Generated.parsePathsResolves, Generated.collectPlainRelNorm,
+        Generated.collectPlainAbsNorm]
+  simp only [e]
+  exact C12_collect_spellings true cwd p q x hb hp hrel hx
+
+/-- **paths, trailing `x/..`.** `p/x/..` (and `p/x/../`) — the directory named through a sub-directory — is `p`. -/
+theorem C12_parse_paths_dotdot_end (cwd p x : Str) (hb : cwd.getLast? ≠ some '/')
+    (hp : HasNonSlash p) (hrel : isAbs p = false) (hx : Normal x) :
+    parsePath cwd (p ++ '/' :: (x ++ '/' :: '.' :: '.' :: '/' :: [])) = parsePath cwd p := by
+  have h := (C12_parse_paths_spellings cwd p [] x hb hp hrel hx).2.2
+  rw [h]
+  have hrel' : isAbs (p ++ ['/']) = false := by
+    cases p with
+    | nil => exact absurd rfl (ne_nil_of_hasNonSlash hp)
+    | cons a t => simpa [isAbs] using hrel
+  have hbp : HasNonSlash (cwd ++ '/' :: p) := by
+    obtain ⟨c, hc, hne⟩ := hp
+    exact ⟨c, by simp [hc], hne⟩
+  have e : cwd ++ '/' :: (p ++ ['/']) = (cwd ++ '/' :: p) ++ ['/'] := by simp
+  simp only [parsePath, hrel', hrel, joinPath, if_neg hb, Bool.false_eq_true, if_false, Generated.parsePathsResolves, if_true]
+  rw [e]; exact C12_normpath_trailing _ hbp
+
+/-- **task identity under spellings of `paths`.** The signature of a task collected from the module `m` under the
+project path is the same for the spellings above. -/
+theorem C12_task_sig_paths (sha : Pytask.Hash.Bytes → Str) (base cwd p q x m : Str) (hb : cwd.getLast? ≠ some '/')
+    (hp : HasNonSlash p) (hrel : isAbs p = false) (hx : Normal x) :
+    Pytask.Hash.sigTask sha base (parsePath cwd (p ++ '/' :: (x ++ '/' :: '.' :: '.' :: '/' :: q)) ++ '/' :: m) =
+      Pytask.Hash.sigTask sha base (parsePath cwd (p ++ '/' :: q) ++ '/' :: m) := by
+  rw [(C12_parse_paths_spellings cwd p q x hb hp hrel hx).2.2]
+
 /-- non-vacuity of the spelling theorems: `/r/a` has a non-slash character, `x` is an ordinary component,
 and the four spellings of `/r/a/b` normalise to it. -/
 example : HasNonSlash "/r/a".toList ∧ Normal "x".toList ∧
